@@ -129,11 +129,17 @@ Next == /\ ~Final
              /\ hist' = Append(hist, st)
              /\ IF Ends(st) THEN heap' = heap /\ stop' = TRUE
                 ELSE LET R == Step(heap, st.op, st.recv, st.a) IN
-                     IF R.j THEN heap' = ApplyRes(heap, st.recv, R) /\ stop' = FALSE
+                     IF R.j THEN /\ heap' = ApplyRes(heap, st.recv, R)
+                                 /\ stop' = ~(\A i \in 1..Len(heap') : Rect(heap'[i]))   \* see RaggedOnlyBy3Frames
                      ELSE heap' = heap /\ stop' = TRUE      \* state after the call is not pinned: the history ends
 Spec == Init /\ [][Next]_<<heap, hist, stop>>
 
 Emit == Final => PrintT(ToJson([steps |-> hist]))
 \* design-level invariants of the specified machine (checked while generating)
-RectInv == \A i \in 1..Len(heap) : Rect(heap[i])
+RectInv == stop \/ \A i \in 1..Len(heap) : Rect(heap[i])
+\* The documented meaning of translating an ALIGNMENT in all three frames (three rows per input row,
+\* floor((L-f)/3) residues each) yields rows of different lengths unless L mod 3 = 2: the one place where
+\* the documented operations do not preserve rectangularity (recorded as a finding, DESIGN.md section 3).
+RaggedOnlyBy3Frames == (\E i \in 1..Len(heap) : ~Rect(heap[i])) =>
+                          LET st == hist[Len(hist)] IN st.op = "Translate" /\ st.a.frame = -1
 =============================================================================
